@@ -57,13 +57,16 @@ fn parse_rads(input: &str) -> IResult<&str, f64> {
 fn parse_grads(input: &str) -> IResult<&str, f64> {
     let (input, grads) = double(input)?;
     let (input, _) = tag("grad")(input)?;
-    Ok((input, grads * 360. / 400.))
+    // reduce to one turn first (the remainder is exact): the product of a huge angle is rounded,
+    // or overflows, and no longer says where in the turn the angle lies
+    Ok((input, grads % 400. * 360. / 400.))
 }
 
 fn parse_turns(input: &str) -> IResult<&str, f64> {
     let (input, turns) = double(input)?;
     let (input, _) = tag("turn")(input)?;
-    Ok((input, turns * 360.))
+    // see parse_grads
+    Ok((input, turns % 1. * 360.))
 }
 
 fn parse_angle(input: &str) -> IResult<&str, f64> {
